@@ -1,27 +1,47 @@
 #!/bin/bash
 # Confirm a seeded change in a scratch worktree (never /repo):
-#   seeded_confirm.sh <dir with patch.diff and demo/*.rs> <cargo package> <tests dir relative to repo>
+#   seeded_confirm.sh <dir with patch.diff and demo/*.rs> <cargo package> <dir for demo files, relative to repo>
 # 1. demo passes on unchanged sources, 2. with the patch the package's existing tests pass,
 # 3. with the patch the demo fails.  Prints CONFIRMED / REJECTED.
+# env: SEED_TEST_ARGS   extra args for the existing-tests run (e.g. --lib)
+#      SEED_FEATURES    e.g. "--features verif" for demos that use the hook feature
+#      SEED_INCRATE=1   demo is an in-crate #[cfg(test)] module: demo/include.diff is applied and the demo
+#                       is run as `cargo test -p PKG --lib <module name>`
 set -u
 D=$1; PKG=$2; TDIR=$3
 W=${SEED_WORKTREE:-/tmp/mut/repo}
+F=${SEED_FEATURES:-}
 export CARGO_NET_OFFLINE=true CARGO_TARGET_DIR=${SEED_TARGET:-/tmp/mut/seedtarget}
+mkdir -p /tmp/mut
 [ -d "$W" ] || git -C /repo worktree add --detach "$W" HEAD >/dev/null 2>&1
 git -C "$W" checkout -q --detach "$(git -C /repo rev-parse HEAD)" && git -C "$W" checkout -- . && git -C "$W" clean -fdq
 names=()
-for f in "$D"/demo/*.rs; do n=$(basename "$f" .rs); names+=("$n"); mkdir -p "$W/$TDIR"; cp "$f" "$W/$TDIR/$n.rs"; done
+for f in "$D"/demo/*.rs; do names+=("$(basename "$f" .rs)"); done
+put_demo() {
+  mkdir -p "$W/$TDIR"
+  for f in "$D"/demo/*.rs; do cp "$f" "$W/$TDIR/"; done
+  if [ "${SEED_INCRATE:-0}" = 1 ]; then for i in "$D"/demo/*.diff; do git -C "$W" apply "$i" || echo "include diff does not apply"; done; fi
+}
+drop_demo() {
+  for n in "${names[@]}"; do rm -f "$W/$TDIR/$n.rs"; done
+  if [ "${SEED_INCRATE:-0}" = 1 ]; then for i in "$D"/demo/*.diff; do git -C "$W" apply -R "$i"; done; fi
+}
+run_demo() { # $1 = name
+  if [ "${SEED_INCRATE:-0}" = 1 ]; then cargo test -q -p "$PKG" --lib --offline $F "$1"; else cargo test -q -p "$PKG" --offline $F --test "$1"; fi
+}
 ok=1
 cd "$W"
+put_demo
 for n in "${names[@]}"; do
-  if cargo test -q -p "$PKG" --offline --test "$n" >/tmp/mut/seed_demo_clean.log 2>&1; then echo "demo $n passes on unchanged tree"; else echo "demo $n FAILS on unchanged tree"; ok=0; fi
+  if run_demo "$n" >/tmp/mut/seed_demo_clean.log 2>&1 && grep -q "test result: ok. [1-9]" /tmp/mut/seed_demo_clean.log; then echo "demo $n passes on unchanged tree"; else echo "demo $n FAILS on unchanged tree"; tail -5 /tmp/mut/seed_demo_clean.log; ok=0; fi
 done
+drop_demo
 git apply "$D/patch.diff" || { echo "patch does not apply"; ok=0; }
-excl=(); for n in "${names[@]}"; do rm "$W/$TDIR/$n.rs"; done
 if cargo test -q -p "$PKG" --offline ${SEED_TEST_ARGS:-} >/tmp/mut/seed_suite.log 2>&1; then echo "existing tests of $PKG pass with the change"; else echo "existing tests FAIL with the change"; tail -5 /tmp/mut/seed_suite.log; ok=0; fi
-for f in "$D"/demo/*.rs; do n=$(basename "$f" .rs); mkdir -p "$W/$TDIR"; cp "$f" "$W/$TDIR/$n.rs"; done
+put_demo
 for n in "${names[@]}"; do
-  if cargo test -q -p "$PKG" --offline --test "$n" >/tmp/mut/seed_demo_patched.log 2>&1; then echo "demo $n still passes with the change"; ok=0; else echo "demo $n fails with the change"; fi
+  if run_demo "$n" >/tmp/mut/seed_demo_patched.log 2>&1; then echo "demo $n still passes with the change"; ok=0; else
+    if grep -q "test result: FAILED" /tmp/mut/seed_demo_patched.log; then echo "demo $n fails with the change"; else echo "demo $n did not run with the change"; tail -5 /tmp/mut/seed_demo_patched.log; ok=0; fi; fi
 done
 git checkout -- . && git clean -fdq
 [ $ok = 1 ] && echo "CONFIRMED $D" || echo "REJECTED $D"
